@@ -326,8 +326,9 @@ bool kirsch_kfifo_queue<T, Policies...>::committed(marked_ptr segment, marked_va
   if (segment.get() == head_current.get()) {
     // Insert tail segment is now head.
     marked_ptr new_head(head_current.get(), head_current.mark() + 1);
-    // This relaxed-CAS is part of a release sequence headed by (10)
-    if (head_.compare_exchange_strong(head_current, new_head, std::memory_order_relaxed)) {
+    // This CAS is part of a release sequence headed by (10); it has to be a release operation
+    // itself, so that a pop that sees the new head (3) also sees the item we have just inserted.
+    if (head_.compare_exchange_strong(head_current, new_head, std::memory_order_release, std::memory_order_relaxed)) {
       // We are fine if we can update head and thus fail any concurrent
       // advance_head attempts.
       return true;
